@@ -222,4 +222,227 @@ theorem mapM_event_emit {A : Type} (all : List Nat) (prog : List (Call Nat A)) (
             CLOSE, END, h, specFrom] at h ⊢ <;> exact h
 
 
+
+/-! ### `next_event_id_in_path`, `next_event_id_in_sub_path` -/
+
+theorem emitIds_head {A : Type} (pos : Nat) (r : List (Call Nat A)) :
+    (emitIds pos r)[0]? = if r.isEmpty then none else some pos := by
+  cases r with
+  | nil => simp [emitIds]
+  | cons c t => cases c <;> simp [emitIds]
+
+theorem emitCmds_length_pos {A : Type} (pos fi : Nat) (r : List (Call Nat A)) :
+    (emitCmds pos fi r).length = 0 ↔ r = [] := by
+  cases r with
+  | nil => simp [emitCmds]
+  | cons c t => cases c <;> simp [emitCmds]
+
+/-- `next_event_id_in_path` on the command array of a program: from the `j`-th event id to the
+`j+1`-th, `None` after the last -/
+theorem nextInPath_emit {A : Type} (all : List Nat) (prog : List (Call Nat A)) (pre : List Nat) (fi : Nat)
+    (hall : all = pre ++ emitCmds pre.length fi prog) (j id : Nat)
+    (hj : (emitIds pre.length prog)[j]? = some id) :
+    nextEventIdInPath all id = some ((emitIds pre.length prog)[j + 1]?) := by
+  induction prog generalizing pre fi j with
+  | nil => simp [emitIds] at hj
+  | cons c r ih =>
+    cases j with
+    | succ j =>
+      cases c with
+      | begin to a =>
+        simp only [emitIds, List.getElem?_cons_succ] at hj ⊢
+        have := ih (pre ++ [BEGIN, to]) pre.length (by simpa [emitCmds] using hall) j (by simpa using hj)
+        simpa using this
+      | line to a =>
+        simp only [emitIds, List.getElem?_cons_succ] at hj ⊢
+        have := ih (pre ++ [LINE, to]) fi (by simpa [emitCmds] using hall) j (by simpa using hj)
+        simpa using this
+      | quad k to a =>
+        simp only [emitIds, List.getElem?_cons_succ] at hj ⊢
+        have := ih (pre ++ [QUADRATIC, k, to]) fi (by simpa [emitCmds] using hall) j (by simpa using hj)
+        simpa using this
+      | cubic k1 k2 to a =>
+        simp only [emitIds, List.getElem?_cons_succ] at hj ⊢
+        have := ih (pre ++ [CUBIC, k1, k2, to]) fi (by simpa [emitCmds] using hall) j (by simpa using hj)
+        simpa using this
+      | end_ cl =>
+        simp only [emitIds, List.getElem?_cons_succ] at hj ⊢
+        have := ih (pre ++ [if cl then CLOSE else END, fi]) fi (by simpa [emitCmds] using hall) j (by simpa using hj)
+        simpa using this
+    | zero =>
+      have hlen0 := emitCmds_length_pos (A := A)
+      cases c with
+      | begin to a =>
+        simp [emitIds] at hj; subst hj
+        have e0 : all[pre.length]? = some BEGIN := by rw [hall]; simp [emitCmds]
+        have hl : all.length = pre.length + 2 + (emitCmds (pre.length + 2) pre.length r).length := by
+          rw [hall]; simp [emitCmds]; omega
+        simp only [nextEventIdInPath, e0, Option.map_some, emitIds, List.getElem?_cons_succ, emitIds_head]
+        cases r with
+        | nil => simp [hl, emitCmds, BEGIN, QUADRATIC, CUBIC]
+        | cons c' t =>
+          have : emitCmds (pre.length + 2) pre.length (c' :: t) ≠ [] := by cases c' <;> simp [emitCmds]
+          simp [hl, this, BEGIN, QUADRATIC, CUBIC]
+      | line to a =>
+        simp [emitIds] at hj; subst hj
+        have e0 : all[pre.length]? = some LINE := by rw [hall]; simp [emitCmds]
+        have hl : all.length = pre.length + 2 + (emitCmds (pre.length + 2) fi r).length := by
+          rw [hall]; simp [emitCmds]; omega
+        simp only [nextEventIdInPath, e0, Option.map_some, emitIds, List.getElem?_cons_succ, emitIds_head]
+        cases r with
+        | nil => simp [hl, emitCmds, LINE, QUADRATIC, CUBIC]
+        | cons c' t =>
+          have : emitCmds (pre.length + 2) fi (c' :: t) ≠ [] := by cases c' <;> simp [emitCmds]
+          simp [hl, this, LINE, QUADRATIC, CUBIC]
+      | quad k to a =>
+        simp [emitIds] at hj; subst hj
+        have e0 : all[pre.length]? = some QUADRATIC := by rw [hall]; simp [emitCmds]
+        have hl : all.length = pre.length + 3 + (emitCmds (pre.length + 3) fi r).length := by
+          rw [hall]; simp [emitCmds]; omega
+        simp only [nextEventIdInPath, e0, Option.map_some, emitIds, List.getElem?_cons_succ, emitIds_head]
+        cases r with
+        | nil => simp [hl, emitCmds, QUADRATIC, CUBIC]
+        | cons c' t =>
+          have : emitCmds (pre.length + 3) fi (c' :: t) ≠ [] := by cases c' <;> simp [emitCmds]
+          simp [hl, this, QUADRATIC, CUBIC]
+      | cubic k1 k2 to a =>
+        simp [emitIds] at hj; subst hj
+        have e0 : all[pre.length]? = some CUBIC := by rw [hall]; simp [emitCmds]
+        have hl : all.length = pre.length + 4 + (emitCmds (pre.length + 4) fi r).length := by
+          rw [hall]; simp [emitCmds]; omega
+        simp only [nextEventIdInPath, e0, Option.map_some, emitIds, List.getElem?_cons_succ, emitIds_head]
+        cases r with
+        | nil => simp [hl, emitCmds, QUADRATIC, CUBIC]
+        | cons c' t =>
+          have : emitCmds (pre.length + 4) fi (c' :: t) ≠ [] := by cases c' <;> simp [emitCmds]
+          simp [hl, this, QUADRATIC, CUBIC]
+      | end_ cl =>
+        simp [emitIds] at hj; subst hj
+        have e0 : all[pre.length]? = some (if cl then CLOSE else END) := by rw [hall]; simp [emitCmds]
+        have hl : all.length = pre.length + 2 + (emitCmds (pre.length + 2) fi r).length := by
+          rw [hall]; simp [emitCmds]; omega
+        simp only [nextEventIdInPath, e0, Option.map_some, emitIds, List.getElem?_cons_succ, emitIds_head]
+        cases r with
+        | nil => cases cl <;> simp [hl, emitCmds, CLOSE, END, QUADRATIC, CUBIC]
+        | cons c' t =>
+          have : emitCmds (pre.length + 2) fi (c' :: t) ≠ [] := by cases c' <;> simp [emitCmds]
+          cases cl <;> simp [hl, this, CLOSE, END, QUADRATIC, CUBIC]
+
+
+theorem walk_from (all ids : List Nat)
+    (hnext : ∀ j id, ids[j]? = some id → nextEventIdInPath all id = some (ids[j + 1]?)) :
+    ∀ k j id fuel, j + k = ids.length → 1 ≤ k → k ≤ fuel → ids[j]? = some id →
+      walkIds all fuel id = some (ids.drop j) := by
+  intro k
+  induction k with
+  | zero => intro j id fuel _ h; omega
+  | succ k ih =>
+    intro j id fuel hjk _ hf hid
+    obtain ⟨f, rfl⟩ : ∃ f, fuel = f + 1 := ⟨fuel - 1, by omega⟩
+    have hlt : j < ids.length := by omega
+    have hdrop : ids.drop j = id :: ids.drop (j + 1) := by
+      rw [List.drop_eq_getElem_cons hlt]
+      have : ids[j]? = some ids[j] := List.getElem?_eq_getElem hlt
+      rw [this] at hid; simp at hid; rw [hid]
+    simp only [walkIds, hnext j id hid, Option.bind_some]
+    by_cases hk : k = 0
+    · subst hk
+      have : ids[j + 1]? = none := by simp; omega
+      have hd : ids.drop (j + 1) = [] := by simp; omega
+      simp [this, hdrop, hd]
+    · have hlt' : j + 1 < ids.length := by omega
+      have hn : ids[j + 1]? = some ids[j + 1] := List.getElem?_eq_getElem hlt'
+      have := ih (j + 1) ids[j + 1] f (by omega) (by omega) (by omega) hn
+      simp [hn, this, hdrop]
+
+theorem emitIds_length {A : Type} (pos : Nat) (prog : List (Call Nat A)) :
+    (emitIds pos prog).length = prog.length := by
+  induction prog generalizing pos with
+  | nil => rfl
+  | cons c r ih => cases c <;> simp [emitIds, ih]
+
+theorem emitCmds_length_ge {A : Type} (pos fi : Nat) (prog : List (Call Nat A)) :
+    prog.length ≤ (emitCmds pos fi prog).length := by
+  induction prog generalizing pos fi with
+  | nil => simp
+  | cons c r ih =>
+    cases c with
+    | begin to a => have := ih (pos + 2) pos; simp [emitCmds]; omega
+    | line to a => have := ih (pos + 2) fi; simp [emitCmds]; omega
+    | quad k to a => have := ih (pos + 3) fi; simp [emitCmds]; omega
+    | cubic k1 k2 to a => have := ih (pos + 4) fi; simp [emitCmds]; omega
+    | end_ cl => have := ih (pos + 2) fi; simp [emitCmds]; omega
+
+/-- what `next_event_id_in_sub_path` must answer for each event id: the next id, and at an End
+the id of the sub-path's Begin (`b`) — the ids of a sub-path form a cycle -/
+def cycleSpec {A : Type} : List Nat → List (Call Nat A) → Nat → List Nat
+  | id :: ids, .begin _ _ :: r, _ => (ids.head?.getD 0) :: cycleSpec ids r id
+  | _ :: ids, .end_ _ :: r, b => b :: cycleSpec ids r b
+  | _ :: ids, _ :: r, b => (ids.head?.getD 0) :: cycleSpec ids r b
+  | _, _, _ => []
+
+theorem emitIds_head? {A : Type} (pos : Nat) (r : List (Call Nat A)) (hr : r ≠ []) :
+    (emitIds pos r).head?.getD 0 = pos := by
+  cases r with
+  | nil => exact absurd rfl hr
+  | cons c t => cases c <;> simp [emitIds]
+
+theorem nextInSubPath_emit {A : Type} (all : List Nat) (prog : List (Call Nat A)) (inSub : Bool)
+    (pre : List Nat) (fi : Nat)
+    (hall : all = pre ++ emitCmds pre.length fi prog)
+    (hn : wellNestedFrom inSub prog = true) :
+    (emitIds pre.length prog).mapM (nextEventIdInSubPath all)
+      = some (cycleSpec (emitIds pre.length prog) prog fi) := by
+  induction prog generalizing inSub pre fi with
+  | nil => simp [emitIds, cycleSpec]
+  | cons c r ih =>
+    have e0 : ∀ w rest, all = pre ++ (w :: rest) → all[pre.length]? = some w := by
+      intro w rest h; rw [h]; simp
+    have e1 : ∀ w v rest, all = pre ++ (w :: v :: rest) → all[pre.length + 1]? = some v := by
+      intro w v rest h; rw [h]; simp
+    cases inSub with
+    | false =>
+      cases c with
+      | begin to a =>
+        have hr : r ≠ [] := by intro h; subst h; simp [wellNestedFrom] at hn
+        have h := ih true (pre ++ [BEGIN, to]) pre.length (by simpa [emitCmds] using hall)
+          (by simpa [wellNestedFrom] using hn)
+        simp at h
+        simp [emitIds, cycleSpec, nextEventIdInSubPath, e0 _ _ (by simpa [emitCmds] using hall), BEGIN, LINE,
+          h, emitIds_head? _ r hr]
+      | _ => simp [wellNestedFrom] at hn
+    | true =>
+      cases c with
+      | begin to a => simp [wellNestedFrom] at hn
+      | line to a =>
+        have hr : r ≠ [] := by intro h; subst h; simp [wellNestedFrom] at hn
+        have h := ih true (pre ++ [LINE, to]) fi (by simpa [emitCmds] using hall)
+          (by simpa [wellNestedFrom] using hn)
+        simp at h
+        simp [emitIds, cycleSpec, nextEventIdInSubPath, e0 _ _ (by simpa [emitCmds] using hall), BEGIN, LINE,
+          h, emitIds_head? _ r hr]
+      | quad k to a =>
+        have hr : r ≠ [] := by intro h; subst h; simp [wellNestedFrom] at hn
+        have h := ih true (pre ++ [QUADRATIC, k, to]) fi (by simpa [emitCmds] using hall)
+          (by simpa [wellNestedFrom] using hn)
+        simp at h
+        simp [emitIds, cycleSpec, nextEventIdInSubPath, e0 _ _ (by simpa [emitCmds] using hall), BEGIN, LINE,
+          QUADRATIC, h, emitIds_head? _ r hr]
+      | cubic k1 k2 to a =>
+        have hr : r ≠ [] := by intro h; subst h; simp [wellNestedFrom] at hn
+        have h := ih true (pre ++ [CUBIC, k1, k2, to]) fi (by simpa [emitCmds] using hall)
+          (by simpa [wellNestedFrom] using hn)
+        simp at h
+        simp [emitIds, cycleSpec, nextEventIdInSubPath, e0 _ _ (by simpa [emitCmds] using hall), BEGIN, LINE,
+          QUADRATIC, CUBIC, h, emitIds_head? _ r hr]
+      | end_ cl =>
+        have h := ih false (pre ++ [if cl then CLOSE else END, fi]) fi (by simpa [emitCmds] using hall)
+          (by simpa [wellNestedFrom] using hn)
+        simp at h
+        cases cl <;>
+          simp [emitIds, cycleSpec, nextEventIdInSubPath, e0 _ _ (by simpa [emitCmds] using hall),
+            e1 _ _ _ (by simpa [emitCmds] using hall), BEGIN, LINE, QUADRATIC, CUBIC, CLOSE, END] <;>
+          simp [h]
+
+
 end Lyon.Path.Cmd
